@@ -202,7 +202,7 @@ ADDED = {
 # session 6
 ADDED6 = {
  "C03": ("; the xmm6int Salsa20 SSE2 / AVX2 code (u0/u1/u4/u8, diagonal state layout) modelled and proved = reference = specification keystream",
-         " The vectorised Salsa20 code (salsa20_xmm6int-sse2.c / -avx2.c with u0 / u1 / u4 / u8.h: diagonal state layout, 64-bit counter lanes with carry inside and between batches, in-place bodies, tails) is modelled from the header text and proved equal to the reference model and the Salsa20 / XSalsa20 specification for every key, nonce, counter and length (Properties/C03SalsaSimd, 41 theorems); the driver cross-runs it on every Salsa20 op; the six files are pinned. The xmm6 ASSEMBLY backend is translated from the current .S text into an instruction array for an x86-64 + SSE2 interpreter (Model/X86Sse.lean) on every run and cross-run by the driver on every Salsa20 / XSalsa20 op up to 1100 bytes; when the text changes the driver is rebuilt against the regenerated array and a directed op set (counters around 2^32 and 2^64, every path and tail) searched for a failing input; proved so far (Properties/C03Asm2): the prologue, for every memory content, counter and length, leaves the diagonal-layout state with both counter words correct (this theorem fails to re-check on seeded C03-6), and the 20-round loop equals the specification's double rounds; the feed-forward / XOR / stores / counter increment, the 4-block path and tails rest on the cross-run."),
+         " The vectorised Salsa20 code (salsa20_xmm6int-sse2.c / -avx2.c with u0 / u1 / u4 / u8.h: diagonal state layout, 64-bit counter lanes with carry inside and between batches, in-place bodies, tails) is modelled from the header text and proved equal to the reference model and the Salsa20 / XSalsa20 specification for every key, nonce, counter and length (Properties/C03SalsaSimd, 41 theorems); the driver cross-runs it on every Salsa20 op; the six files are pinned. The xmm6 ASSEMBLY backend is translated from the current .S text into an instruction array for an x86-64 + SSE2 interpreter (Model/X86Sse.lean) on every run and cross-run by the driver on every Salsa20 / XSalsa20 op up to 1100 bytes; when the text changes the driver is rebuilt against the regenerated array and a directed op set (counters around 2^32 and 2^64, every path and tail) searched for a failing input; proved so far (Properties/C03Asm2): the prologue, for every memory content, counter and length, leaves the diagonal-layout state with both counter words correct (this theorem fails to re-check on seeded C03-6), and the 20-round loop equals the specification's double rounds; the block output (feed-forward, XOR with the message, stores, in place included) and the 64-bit counter increment with its carry are proved as separate steps (C03Asm3); their composition into one theorem, the 4-block path and tails rest on the cross-run."),
  "C06": ("; statement-order model of seed_keypair / detached sign (incl. Ed25519ph) / verify_detached assembled from the proved pieces: verifier returns 0 iff the strict conditions hold, decoding / encoding = RFC 8032 (two lax-decoding deviations kernel-checked), sign = RFC 8032 and sign-then-verify = 0 under CurveGroup + Faithful",
          " Ed25519 end to end (Properties/C06Full, C06Full2, C06Full3; 38 theorems): the statement-order models of keypair.c / sign.c / open.c are assembled from the proved SHA-512, sc25519 and ge25519 models and run by the driver; `verify_returns_zero_iff` (S canonical, A canonical / decodable / not small order, R decodable / not small order, the code's final small-order test); ge25519_frombytes (both forms) = lax RFC 8032 decoding with the root selection proved equal to the RFC's, p3_tobytes / tobytes = encoding, decode of encode = id; key generation and signing equal Spec.Ed25519 byte for byte and every honest signature verifies, under the explicit hypotheses CurveGroup + Faithful + [L]B = 0 (facts about edwards25519) and the side condition that R and A pass the small-order tests; the verifier's final comparison is characterised exactly (4*Delta = 0 up to a spoiled-denominator disjunct), neither the cofactorless nor the 8-cofactored equation. The function bodies are pinned."),
  "C08": ("; the SSE2 scrypt core and both escrypt_kdf functions proved = RFC 7914 end to end",
@@ -211,14 +211,16 @@ ADDED6 = {
          " Session 6 widened the translator from 24 to 68 targets (100 corollaries over native / noasm / portable configurations): fe25519 arithmetic in the 51-bit and 25.5-bit representations incl. invert / pow22523 / frombytes / tobytes, the ref10 X25519 ladder (secret scalar, public point), sc25519 reduce / mul / muladd / invert, ge25519 cmov8 lookups and both scalar multiplications, crypto_core_salsa / hsalsa20 / hchacha20, poly1305 blocks / finish / update (donna64 and donna32), SHA-256 / SHA-512 transform, update, pad and final, blake2b compress_ref / update / final, SipHash-2-4. Aliased and sub-array arguments are handled by cloning (exact w.r.t. C, with a control showing by-copy passing would differ); for large programs the label context is inferred outside the kernel and CHECKED inside it against a supplied-context checker whose soundness (`soundness_ctx`) is proved. chacha20_encrypt_bytes is refused (its public counter shares an array with the key)."),
  "C18": ("; randombytes_internal_random.c and the dispatch layer of randombytes.c modelled in the C's structure, the REAL internal generator run deterministically against it",
          " The default-grade generators are inside the model (Model/RandomInternal, Properties/C18Internal, 29 theorems, for every history of calls): pool bookkeeping invariant (every word handed out once and zeroed, indices in bounds), buf = ChaCha20 keystream under the current key followed by the key-erasure step stated exactly, stir requests exactly 32 seed bytes (16 + 32 the first time), close resets, the dispatch layer forwards sizes exactly and uses the proved rejection loop unless the source supplies its own uniform. The correspondence wraps getentropy / gettimeofday / getpid / open so the real internal generator runs on a scripted outside world (447 histories per configuration). Deviations of the code recorded as theorems (outside the property): with HAVE_GETENTROPY a run-time getentropy failure leaves the key unseeded when the device opens; a fork is misuse, not a re-stir; random() with words left in the pool never checks the pid."),
+ "C17": ("; byte-and-page-level model of the guarded allocator (contents, protections, faulting accesses) with theorems for every size, canary value and protection history",
+         " Properties/C17Mem (9 theorems over Model/AllocMem.lean: a state of page protections, byte contents, page size, canary and a system-call log, every load / store faulting when the protection forbids it): after sodium_malloc every user byte is 0xdb in read-write pages, p + size is the first byte of a no-access page, the 16 bytes before p are the canary, the call log is the five system calls of the code; any access in either guard page faults; each protection call re-protects exactly the unprotected range and, by induction over any history, contents and canary are preserved and the guard pages stay inaccessible; sodium_free aborts for EVERY altered canary value (through the exactness of sodium_memcmp proved under C14) and otherwise zeroes the region and unmaps exactly the mapping, from any protection state. This model is not yet routed through the driver: it shares the layout lemmas with the tied Model/Alloc.lean, whose layouts and call logs the correspondence compares; the fork probes (now also under SIGSEGV ignored / handled by a returning handler) validate the faulting and termination behaviour."),
  "C19": ("; Tie B: table of static objects / accesses / lock contexts / call graph regenerated from the clang AST on every run, race-freedom theorem over it; shared-const-input rounds in the threaded harness",
          " Race freedom after initialisation is now a theorem over a table REGENERATED from the source (tools/c2lean_globals.py: 41 objects, 339 functions kept of 37,543, 228 API roots; cross-checked against objdump -t of the built library, which also covers the assembly files): `race_free_after_init` (for any table and policy: the decidable check implies that in every interleaving of any number of threads running any post-init API calls, two conflicting accesses to the same object are lock-protected, thread-local or allow-listed), `table_race_free` (kernel-decided instance), `init_then_race_free` (link to the init protocol), and necessity theorems for each named exception (sodium_misuse, randombytes_set_implementation, randombytes_close, the first-use state of the two generators). Caller-owned memory is not in the table: the threaded harness now also runs 24 rounds per race in which all threads use the SAME const inputs (keys, a precomputed AES-GCM state on first use, messages) against single-threaded references, also under TSan."),
  "C20": ("; Tie B: allocation skeletons of 28 entry points regenerated from the clang AST on every run, fail-closed decided by the kernel for each and lifted to every oracle",
          " Tie B (tools/c2lean_alloc.py -> Generated/AllocProgs.lean): the allocation skeleton (every malloc / calloc / mmap / free / munmap, the tests of their results, assignments to struct fields, early returns with their value class, every other condition abstracted as a named boolean input) of 28 entry points of argon2.c, argon2-core.c, pwhash_argon2i(d).c, the scrypt files and utils.c is regenerated on every run as a term of a small deep-embedded language; `goodAll` explores both answers at every request and every abstracted condition and is decided by the kernel for each entry; `fail_closed_of_goodAll` lifts it to every oracle Nat -> Bool and every valuation; the generated programs are proved observationally equal to the hand-written ones of Model/Fault.lean (Properties/C20Gen, 45 theorems). On a failing obligation the tool prints the fault schedule (oracle prefix, named inputs, event trace) as the replay."),
  "C05": ("; sandy2x scalar assembly (fe51_pack / fe51_mul / fe51_nsquare) translated from the .S text into an x86-64 interpreter model on every run, driver cross-runs it; constructed boundary outputs",
-         " The scalar assembly files of the sandy2x backend are inside the model through a translator: tools/asm2lean.py turns the current .S text into instruction lists for the x86-64 interpreter of Model/X86Scalar.lean (registers, flags with definedness tracking, byte memory; refuses unknown mnemonics), regenerated on every run; the driver runs every X25519 op's final limb vector through the generated fe51_pack / fe51_mul / fe51_nsquare and compares with the limb model; of fe51_pack the reduce loop (three passes, no 64-bit wrap, limbs below 2^51, value preserved mod 2^255-19), the freeze (conditional subtraction of p) and the 137 byte stores with every stored byte's value are proved for all inputs (Properties/C05Asm, C05Asm2) — the final digit sum, the prologue / epilogue memory frame, fe51_mul and fe51_nsquare are NOT proved and rest on the cross-run; ladder.S (AVX) is not modelled. The generator constructs 1359 (scalar, point) pairs whose shared secret is a small integer / at the reduction and limb-packing boundaries, on curve and twist."),
+         " The scalar assembly files of the sandy2x backend are inside the model through a translator: tools/asm2lean.py turns the current .S text into instruction lists for the x86-64 interpreter of Model/X86Scalar.lean (registers, flags with definedness tracking, byte memory; refuses unknown mnemonics), regenerated on every run; the driver runs every X25519 op's final limb vector through the generated fe51_pack / fe51_mul / fe51_nsquare and compares with the limb model; of fe51_pack the reduce loop (three passes, no 64-bit wrap, limbs below 2^51, value preserved mod 2^255-19), the freeze (conditional subtraction of p) and the 137 byte stores with every stored byte's value are proved for all inputs (Properties/C05Asm, C05Asm2) — and from the post-prologue state to the pre-epilogue state the 32 bytes at rdi are proved to be toLE 32 (value mod p) = fe25519_tobytes of the limb model with nothing else written (C05Asm3); the 14-instruction prologue / 3-instruction epilogue memory frame, fe51_mul and fe51_nsquare are NOT proved and rest on the cross-run; ladder.S (AVX) is not modelled. The generator constructs 1359 (scalar, point) pairs whose shared secret is a small integer / at the reduction and limb-packing boundaries, on curve and twist."),
  "C13": ("; memory-level statement-order models of every AEAD's in-place loops proved = disjoint = functional model",
-         " Properties/C13Aead, C13Aead2 (51 theorems): the ChaCha20-Poly1305 family (original, IETF, XChaCha; any chunking of the stream XOR; the order MAC-over-ciphertext / XOR as written), the AEGIS-128L / 256 block loops and the AES-256-GCM loop shapes (2x7 pipeline, 7 / 4 / 2 / 1-block loops, tail) are modelled as loads and stores on the flat memory in the order of the C statements and proved, for identical (or output-before-input / disjoint) pointers, to store exactly the functional model's output and reach its verdict, with the failure path zeroing the output; for AES-256-GCM the load-before-overwriting-store schedule check is proved for EVERY length by one generic loop lemma over the stage decomposition (C13Aead2; the kernel-evaluated statement below 1024 is kept as a regression example), and the whole detached functions (AD, tag, limits path, 0xd0 fill) are modelled at memory level over abstract primitives; partial-overlap counterexamples mark the boundary of the guarantee. The driver recomputes every identical-pointer AEAD op at memory level."),
+         " Properties/C13Aead, C13Aead2 (51 theorems): the ChaCha20-Poly1305 family (original, IETF, XChaCha; any chunking of the stream XOR; the order MAC-over-ciphertext / XOR as written), the AEGIS-128L / 256 block loops and the AES-256-GCM loop shapes (2x7 pipeline, 7 / 4 / 2 / 1-block loops, tail) are modelled as loads and stores on the flat memory in the order of the C statements and proved, for identical (or output-before-input / disjoint) pointers, to store exactly the functional model's output and reach its verdict, with the failure path zeroing the output; for AES-256-GCM the load-before-overwriting-store schedule check is proved for EVERY length by one generic loop lemma over the stage decomposition (C13Aead2; the kernel-evaluated statement below 1024 is kept as a regression example), and the whole detached functions (AD, tag, limits path, 0xd0 fill) are modelled at memory level over abstract primitives, instantiated with the SP 800-38D primitives for encryption (`gcm_encrypt_detached_is_sp800_38d`, C13Aead3; the composed decrypt statement is not finished); partial-overlap counterexamples mark the boundary of the guarantee. The driver recomputes every identical-pointer AEAD op at memory level."),
  "C10": ("; C10 inherits the pins and cross-backend theorems of the AEGIS / softaes models; long-operand implementation-vs-implementation ops",
          " C10 now fails when the pinned AEGIS / softaes / AES-GCM sources change (its cross-backend claim for them rests on the proved models: aesni_eq_soft etc., 24 theorems added to its audit), and compares backends on operands of 2^20 bytes (quick) and 2^29 .. 2^29+33 bytes (thorough) built inside the harness."),
  "C01": ("; box (easy = detached = afternm) and sealed boxes in both cipher variants compared with the specification under a scripted ephemeral key",
